@@ -244,7 +244,7 @@ func run(r *core.Run) {
 	r.Assume("oracle = own RFC 8259 recogniser/decoder (no encoding/json, no strconv float parsing, no unicode/utf8); a number means the float64 nearest to its exact decimal value (math/big, ties to even), -0 keeps its sign")
 	r.Assume("lists read back as arrays (JSON has one sequence type; json:load-* documents 'arrays become ELPS arrays'): (equal? v (load (dump v))) is demanded of v with every non-empty list replaced by the vector of the same elements")
 	r.Assume("a byte of a string that is not part of a well-formed UTF-8 sequence is written as \\ufffd and reads back as U+FFFD (one per byte); map names that are not well-formed UTF-8 may collide or reorder after that replacement: for such maps only validity and member count are compared")
-	r.Assume("symbols other than true/false are outside the value set except as map names (a symbol-spelled and a string-spelled name are the same member, later insertion wins)")
+	r.Assume("symbols other than true/false are outside the value set except as map names. KEY-KIND COLLAPSE RULE: a sorted-map accepts exactly strings and symbols as keys (quoted symbols, the bare symbols true/false, keywords, any constructed symbol; everything else is refused as unhashable); a member's identity is its spelling (a keyword's colon is part of it: :a is not a), so 'a, a-as-bare-symbol and \"a\" are one member and the later insertion's value wins; every member is written as the JSON STRING of its spelling whatever its kind (true -> \"true\"), and json:load-* gives every name back as a string, which equal? treats as the same key")
 	r.Assume("canonical float text = the shortest decimal that decodes to the float (closest such), laid out like ECMAScript Number::toString (plain digits for 1e-6 <= |x| < 1e21 as docs/lang.md states, d.ddde±x otherwise), -0 as \"-0\" (lang.md)")
 	r.Assume("UNSPECIFIED (only 'no host panic' and, for dump, 'no invalid document' are asserted): NaN and the infinities; a syntactically valid document holding a number beyond the float64 range (1e999) outside :string-numbers - any outcome except json:syntax-error; a document with ill-formed UTF-8 inside a string - accepted or rejected, structure compared when accepted; the content of a string written with an unpaired \\uD800-style escape (must be accepted)")
 	r.Assume("duplicate member names: last wins; under :exact-integers '-0' stays a float and an oversized integer literal that is already canonical float text (10000000000000000000) loads as that float - both as documented in docs/lang.md")
@@ -315,6 +315,32 @@ func run(r *core.Run) {
 		s1 := seqString(ps.at(i/ps.total, b1[:0]))
 		s2 := seqString(ps.at(i%ps.total, b2[:0]))
 		return vMap([]mkey{keyStr(s1), keyStr(s2)}, []val{vInt(1), vStr(s1)})
+	}})
+
+	// ----- V: member-name kinds x spellings that collide with JSON syntax
+	names := allNames()
+	r.Bound("name_spellings", len(nameSpellings))
+	r.Bound("name_kinds", "string,quoted-symbol,bare-symbol(true/false/keyword/constructed)")
+	nn := int64(len(names))
+	x.runFamily(family{name: "map-name-kinds", n: nn * 4, hashNT: true, at: func(i int64) val {
+		return wrap(vMap([]mkey{names[i/4]}, []val{vInt(1)}), int(i%4))
+	}})
+	x.runFamily(family{name: "map-name-kind-pairs", n: nn * nn * 2, hashNT: true, at: func(i int64) val {
+		j := i / 2
+		return wrap(vMap([]mkey{names[j/nn], names[j%nn]}, []val{vStr("yes"), vBool(false)}), int(i%2)*2)
+	}})
+	p4 := perms4()
+	kindSp := []string{"a", "true", "false", "null", "1", ""}
+	x.runFamily(family{name: "map-name-same-spelling-all-kinds", n: int64(len(kindSp) * len(p4)), hashNT: true, at: func(i int64) val {
+		sp := kindSp[i/int64(len(p4))]
+		four := []mkey{keyStr(sp), keySym(sp), keyBare(sp), keyBare(":" + sp)}
+		var ks []mkey
+		var vs []val
+		for n, k := range p4[i%int64(len(p4))] {
+			ks = append(ks, four[k])
+			vs = append(vs, vInt(int64(n)))
+		}
+		return vMap(ks, vs)
 	}})
 
 	// ----- V: trees
